@@ -394,6 +394,9 @@ SPECIAL_PAIRS = [
     ("enum-member-vs-its-value", R("VRich", {"e": _Z.Color.BLUE}), R("VRich", {"e": 2})),
     ("enum-member-differs", R("VRich", {"e": _Z.Color.RED}), R("VRich", {"e": _Z.Color.BLUE})),
     ("bool-vs-int", R("VRich", {"i": True}), R("VRich", {"i": 1})),
+    ("float-vs-bool", R("VRich", {"f": 1.0}), R("VRich", {"f": True})),
+    ("bool-vs-float-zero", R("VRich", {"f": False}), R("VRich", {"f": 0.0})),
+    ("float-vs-int-in-optional", R("VRich", {"n": 7.0}), R("VRich", {"n": 7})),
     ("int-vs-float", R("VRich", {"i": 1}), R("VRich", {"i": 1.0})),
     ("none-vs-string-None", R("VRich", {"n": None}), R("VRich", {"n": "None"})),
     ("separator-strings", R("VStr2", {"a": "1):b=<class 'str'>(2", "b": "3"}), R("VStr2", {"a": "1", "b": "2):b=<class 'str'>(3"})),
